@@ -25,6 +25,7 @@ META = {
 CC = dict(pkg_rel="internal/cc", pkgname="cc", files=["zz_verif_fbadapter_test.go"], test="TestVerifFbAdapterExec")
 FB = dict(pkg_rel="pkg/rtpfb", pkgname="rtpfb", files=["zz_verif_rtpfb_test.go"], test="TestVerifRtpfbExec")
 REFBASE = 1000
+REFBASES = [1000, 1000, 70000, 8000000]      # reference times (64 ms units): minutes, 75 minutes, 5.9 days into the session
 RULE = ("scripts = TLC-enumerated behaviours of Gen_FbDecode at the real constants (warm-up runs leaving 5 / 255 packets in "
         "flight, wrap at 2^16; send actions relative to the LRU; every feedback of the abstract-syntax alphabet relative to the "
         "oldest / newest remembered number resp. the report cursor) + seeded random histories (long runs, random chunk lists, "
@@ -151,6 +152,7 @@ def random_script(rng, target, nsteps):
     before / inside / after the in-flight range, compound feedback for rtpfb."""
     tw = rng.choice([0, 65000, 65500, rng.randrange(65536)])
     seq1 = rng.randrange(65536)
+    seq4 = rng.randrange(65536)
     streams = {2: rng.choice([65530, 10, rng.randrange(65536)]), 3: rng.randrange(65536)}
     now = 0
     ref = 2
@@ -164,11 +166,16 @@ def random_script(rng, target, nsteps):
             if rng.random() < 0.1:
                 tw += rng.choice([1, 2, 5])                       # numbers that are never sent
             ext = not (target == "rtpfb" and rng.random() < 0.05)
-            steps.append({"a": "run", "ssrc": 1, "seq": seq1 % 65536, "tw": tw % 65536, "twcc": True, "ext": ext, "n": n,
-                          "size": rng.randrange(50, 1200), "dep": now, "gap": rng.choice([0, 100, 1000])})
+            if rng.random() < 0.25:      # a second stream on the same transport-wide counter (another extension id)
+                steps.append({"a": "run", "ssrc": 4, "seq": seq4 % 65536, "tw": tw % 65536, "twcc": True, "ext": True, "n": n,
+                              "size": rng.randrange(50, 1200), "dep": now, "gap": rng.choice([0, 100, 1000])})
+                seq4 += n
+            else:
+                steps.append({"a": "run", "ssrc": 1, "seq": seq1 % 65536, "tw": tw % 65536, "twcc": True, "ext": ext, "n": n,
+                              "size": rng.randrange(50, 1200), "dep": now, "gap": rng.choice([0, 100, 1000])})
+                seq1 += n
             now += n * 1000
             tw += n
-            seq1 += n
         elif q < 0.45:
             s = rng.choice([2, 3])
             n = rng.choice([1, 2, 8, 30])
@@ -198,7 +205,7 @@ def random_script(rng, target, nsteps):
                     fbs[0]["deltas"].pop()
                     fbs[0]["dtypes"].pop()
             steps.append({"a": "fb", "wire": wire, "at": now, "fbs": fbs})
-    return {"target": target, "refbase": REFBASE, "steps": steps}
+    return {"target": target, "refbase": rng.choice(REFBASES), "steps": steps}
 
 
 def comp_script(rng, nsend):
@@ -237,14 +244,14 @@ def comp_script(rng, nsend):
         ev.append((tb + 1, 2, {"a": "build", "k": "ccfb", "at": tb + 1, "max": rng.choice([1200, 1200, 200, 64])}))
         tb += rng.choice([30000, 50000, 100000, 250000])
     ev.sort(key=lambda x: (x[0], x[1]))
-    return {"target": "comp", "refbase": REFBASE, "steps": [e[2] for e in ev]}
+    return {"target": "comp", "refbase": rng.choice(REFBASES), "steps": [e[2] for e in ev]}
 
 
 SSRC_TABLES = [None, None,
-               {1: 0x00010001, 2: 0x00020001, 3: 0x00030001, 9: 0x00090001},      # equal in the low 16 bits
-               {1: 0x00010000, 2: 0x00020000, 3: 0x00030000, 9: 0x00090000},      # low 16 bits all zero
-               {1: 0x7FFF0001, 2: 0x7FFF0002, 3: 0x7FFF0003, 9: 0x7FFF0009},      # equal in the high 16 bits
-               {1: 0x12345678, 2: 0x12355678, 3: 0x02345678, 9: 0x12345679}]
+               {1: 0x00010001, 2: 0x00020001, 3: 0x00030001, 4: 0x00040002, 9: 0x00090001},      # equal in the low 16 bits
+               {1: 0x00010001, 2: 0x00020000, 3: 0x00030000, 4: 0x00040000, 9: 0x00090000},      # low 16 bits all zero
+               {1: 0x7FFF0001, 2: 0x7FFF0002, 3: 0x7FFF0003, 4: 0x7FFF0004, 9: 0x7FFF0009},      # equal in the high 16 bits
+               {1: 0x12345679, 2: 0x12355678, 3: 0x02345678, 4: 0x12345678, 9: 0x1234567B}]
 
 
 def remap_ssrc(obj, table):
